@@ -369,9 +369,14 @@ func nestedRewrites(data []byte, p pgpref.Packet) (out [][]byte, desc []string) 
 func (e *env) mutations(seeds []seed) {
 	c := e.c
 	// unmutated seeds first: a panic here is a defect on well-formed input
-	for si, s := range seeds {
+	// (every drain buffer size x every reader mode)
+	for _, s := range seeds {
 		s := s
-		e.all(s.data, si, func() string { return "seed, unmodified: " + s.name })
+		for _, buf := range drainSizes {
+			for mode := 0; mode < readerModes; mode++ {
+				e.allMode(s.data, buf, mode, func() string { return "seed, unmodified: " + s.name })
+			}
+		}
 	}
 	type job struct {
 		seed, off int
@@ -406,15 +411,19 @@ func (e *env) mutations(seeds []seed) {
 		s := seeds[j.seed]
 		switch j.kind {
 		case 0:
-			m := append([]byte{}, s.data[:j.off]...)
-			e.all(m, ji, func() string { return fmt.Sprintf("%s, truncated to %d octets", s.name, j.off) })
+			// every truncation through every reader mode (the end of input is where they differ);
+			// the drain buffer size goes round-robin with the offset
+			for mode := 0; mode < readerModes; mode++ {
+				m := append([]byte{}, s.data[:j.off]...)
+				e.allMode(m, drainSizes[(j.off+mode)%len(drainSizes)], mode, func() string { return fmt.Sprintf("%s, truncated to %d octets", s.name, j.off) })
+			}
 			c.Nontrivial(fmt.Sprintf("M/%d/t/%d", j.seed, j.off))
 		case 1:
-			for _, x := range subsOf(s.data[j.off], textual[j.seed]) {
+			for xi, x := range subsOf(s.data[j.off], textual[j.seed]) {
 				m := append([]byte{}, s.data...)
 				m[j.off] = x
 				x := x
-				e.all(m, ji, func() string { return fmt.Sprintf("%s, octet %d: %02x -> %02x", s.name, j.off, s.data[j.off], x) })
+				e.all(m, j.off*5+xi*7+j.seed, func() string { return fmt.Sprintf("%s, octet %d: %02x -> %02x", s.name, j.off, s.data[j.off], x) })
 				c.Nontrivial(fmt.Sprintf("M/%d/s/%d/%02x", j.seed, j.off, x))
 			}
 		case 2:
